@@ -125,6 +125,12 @@ Section Dyn.
         | [] => mkSt (offs s) (queue s) (past s) (grid s) (flushed s) (kicks s) (used s) true
         | _ :: q => mkSt (offs s) q (past s) (grid s) (flushed s) (kicks s) (used s) false
         end
+    | DCalcKickIfMore =>
+        match queue s with
+        | [] => s
+        | e :: _ => mkSt (write_prefix (calc_kick (K:=QcF) sin m (comp e (fst args)) (comp e (snd args))) (offs s))
+                         (queue s) (past s) (grid s) (flushed s) (kicks s) (used s ++ [e]) false
+        end
     end.
 
   Definition dyn_apply (args : Z * Z) (body : list dynstmt) (s : qst) : qst :=
